@@ -42,8 +42,8 @@ SCbk(s, e) == IF e.total # s.size THEN SBad(s, IF s.api = "push" THEN "C07.Callb
 SRet(s, e) ==
   IF s.fail \/ s.badid THEN SBad(s, "C10.NeverSucceeds")
   ELSE CASE s.api = "push" ->
-              IF s.ph # "done" \/ s.files # s.nfiles THEN SBad(s, "C07.Grammar")
-              ELSE IF ~s.okay THEN SBad(s, "C07.ReturnsAfterOkay")
+              IF s.files # s.nfiles \/ (s.nfiles > 0 /\ s.ph # "done") THEN SBad(s, "C07.Grammar")
+              ELSE IF s.nfiles > 0 /\ ~s.okay THEN SBad(s, "C07.ReturnsAfterOkay")
               ELSE IF s.cb /\ s.cbsum # s.size THEN SBad(s, "C07.CallbackSum")
               ELSE IF ~e.inert THEN SBad(s, "C07.CallbackInert")
               ELSE s
@@ -65,6 +65,8 @@ SExc(s, e) ==
        ELSE IF ~e.reasonIn THEN SBad(s, "C10.CarriesReason")
        ELSE s
   ELSE IF s.badid THEN (IF e.cls # "InvalidResponseError" THEN SBad(s, "C10.InvalidStatus") ELSE s)
+  ELSE IF e.healthy /\ ~e.inert THEN SBad(s, IF s.api = "push" THEN "C07.CallbackInert" ELSE "C08.CallbackInert")
+  ELSE IF e.healthy /\ e.dir THEN SBad(s, "C07.DirRule")
   ELSE IF e.healthy THEN SBad(s, IF s.api = "push" THEN "C07.HealthyPushRaises" ELSE IF s.api = "pull" THEN "C08.HealthyPullRaises" ELSE "C09.HealthyOpRaises")
   ELSE s
 =============================================================================
